@@ -43,13 +43,13 @@ var profL1 = raftsim.Profile{Name: "c01-l1", Layer: 1, MinSteps: 30, MaxSteps: 4
 	CrashPct: []int{0, 0, 1, 3}, MacroPct: 0, MacroW: [7]int{1, 0, 0, 0, 0, 0, 0}, MembershipPct: 45}
 
 var profL2 = raftsim.Profile{Name: "c01-l2", Layer: 2, MinSteps: 30, MaxSteps: 400, StorageW: [4]int{1, 0, 0, 0},
-	CrashPct: []int{0, 0, 1, 3, 8}, MacroPct: 6, MacroW: [7]int{6, 5, 0, 1, 1, 1, 2}, MembershipPct: 45}
+	CrashPct: []int{0, 0, 1, 3, 8}, MacroPct: 6, MacroW: [7]int{6, 5, 1, 1, 1, 1, 2}, MembershipPct: 55}
 
 var profConf = raftsim.Profile{Name: "c01-conf", Layer: 2, MinSteps: 20, MaxSteps: 200, StorageW: [4]int{1, 0, 0, 0},
 	CrashPct: []int{0, 0, 1, 3}, MacroPct: 5, MacroW: [7]int{4, 2, 10, 0, 1, 1, 1}, MembershipPct: 100}
 
 var profL3 = raftsim.Profile{Name: "c01-l3", Layer: 3, StorageW: [4]int{1, 0, 0, 0}, CrashPct: []int{0}, MacroPct: 8,
-	MacroW: [7]int{4, 0, 3, 1, 1, 0, 1}, MembershipPct: 30, MinPhases: 2, MaxPhases: 8}
+	MacroW: [7]int{4, 0, 3, 1, 1, 0, 1}, MembershipPct: 40, MinPhases: 2, MaxPhases: 8}
 
 type voteKey struct{ id, term uint64 }
 
